@@ -4,8 +4,14 @@ import json, os, sys
 sys.path.insert(0, os.path.dirname(os.path.abspath(__file__)))
 import manifest_data as d
 V = os.path.dirname(os.path.dirname(os.path.abspath(__file__)))
+import glob
+CHECKS = {}
+for f in sorted(glob.glob(os.path.join(V, "lib", "cfg", "C*.json"))):
+    c = json.load(open(f))
+    if c.get("manifest") and not c.get("disabled"):
+        CHECKS[os.path.basename(f)[:-5]] = c["manifest"]
 checks = []
-for pid, c in sorted(d.CHECKS.items()):
+for pid, c in sorted(CHECKS.items()):
     checks.append({
         "property_id": pid,
         "quick_cmd": "bin/check %s quick" % pid,
@@ -22,11 +28,11 @@ m = {
     "setup_cmd": "sh bin/setup",
     "hooks": d.HOOKS,
     "engines": [{"name": "coq-proof+correspondence", "path": "/verif/bin/check",
-                 "serves_properties": sorted(d.CHECKS.keys()),
+                 "serves_properties": sorted(CHECKS.keys()),
                  "kind_free_text": "Coq 8.16.1 theorems about executable Gallina models (coq/), tied to /repo by a translator (translator/srcfacts -> coq/Gen/Facts.v) and by a Go correspondence harness (harness/) whose cases are evaluated by the model inside Coq (vm_compute); property oracle evaluated on the implementation for the failing-input search"}],
     "checks": checks,
     "notes": d.NOTES,
-    "not_applicable": d.NOT_APPLICABLE,
+    "not_applicable": [{"property_id": p, "reason": d.NA_REASONS.get(p, "check under construction in this round; not claimed yet")} for p in d.ALL if p not in CHECKS],
 }
 json.dump(m, open(os.path.join(V, "MANIFEST.json"), "w"), indent=1)
 print("wrote MANIFEST.json with", len(checks), "checks")
